@@ -19,6 +19,7 @@ import (
 	"fmt"
 	"go/types"
 	"strings"
+	"sync"
 
 	"golang.org/x/tools/go/ssa"
 )
@@ -74,6 +75,23 @@ type Map struct {
 	entries []*mapEntry
 	idx     map[interface{}]int // concrete keys -> entries index
 	nlive   int
+	nsym    int // live entries whose key is not fully concrete
+}
+
+type ifaceKey struct {
+	t string
+	k interface{}
+}
+
+var typeStrCache sync.Map // types.Type -> string
+
+func typeStr(t types.Type) string {
+	if s, ok := typeStrCache.Load(t); ok {
+		return s.(string)
+	}
+	s := t.String()
+	typeStrCache.Store(t, s)
+	return s
 }
 
 type mapEntry struct {
@@ -604,7 +622,7 @@ func concreteKey(v Value) (interface{}, bool) {
 		if !ok {
 			return nil, false
 		}
-		return fmt.Sprintf("I{%s|%T|%v}", v.T.String(), k, k), true
+		return ifaceKey{typeStr(v.T), k}, true
 	case Struct:
 		var sb strings.Builder
 		sb.WriteString("S{")
